@@ -74,8 +74,19 @@ func (e *DefaultExecutor) Execute(ctx context.Context, job *Job) ([]byte, error)
 		return nil, err
 	}
 
-	env := e.env
-	env = append(env, utils.ConvertEnv(utils.ConvertToMapOfStrings(job.Env.Map()))...)
+	// the job's environment takes precedence over the inherited one: drop the inherited entries it
+	// redefines (the interpreter would otherwise keep whichever "name=value" string sorts last)
+	jobEnv := utils.ConvertToMapOfStrings(job.Env.Map())
+	env := make([]string, 0, len(e.env)+len(jobEnv))
+	for _, kv := range e.env {
+		if i := strings.IndexByte(kv, '='); i > 0 {
+			if _, ok := jobEnv[kv[:i]]; ok {
+				continue
+			}
+		}
+		env = append(env, kv)
+	}
+	env = append(env, utils.ConvertEnv(jobEnv)...)
 
 	if job.Dir == "" {
 		job.Dir = e.dir
